@@ -3,7 +3,14 @@
   Property theorems only (arithmetic part; the string rendering is compared exactly with
   CPython on every generated case).
 -/
+import Mathlib.Algebra.Order.Floor.Defs
+import Mathlib.Data.Rat.Floor
+import Mathlib.Tactic.Linarith
+import Mathlib.Tactic.Positivity
+import Mathlib.Tactic.Ring
 import PV.Model.Format
+import PV.Proofs.C19Lemmas
+import PV.Proofs.C19Lemmas2
 
 namespace PV
 open PV.Fmt
@@ -22,5 +29,128 @@ theorem c19_examples :
     (formatUncertainty (-1 / 1000) (3 / 2) 2 0).render = "-0.0(1.5)" ∧
     (formatUncertainty 12345 678 2 2).render = "12345(678)" := by
   decide +kernel
+
+/-- rounding to n decimals (ties to even) is within half a unit of the last digit -/
+theorem c19_round_half_unit (q : Rat) (n : Nat) :
+    |(roundDec q n).toRat - q| ≤ 1 / (2 * ((10 ^ n : Nat) : Rat)) := by
+  have := half_unit' q n
+  rwa [div_div, mul_comm] at this
+
+
+/-- the rounded numeral keeps the sign and the number of decimals -/
+theorem c19_roundDec_shape (q : Rat) (n : Nat) : (roundDec q n).n = n ∧ ((roundDec q n).neg = true ↔ q < 0) := by
+  simp [roundDec]
+
+
+/-- rounding to the nearest double has relative error at most 2^-53 -/
+theorem c19_roundDouble_rel (q : Rat) (hq : 0 < q) :
+    |roundDouble q - q| ≤ q / ((2 ^ 53 : Nat) : Rat) := by
+  unfold roundDouble
+  rw [if_neg (not_le.mpr hq)]
+  simp only [pw_eq]
+  have hl := ilog2_le q hq
+  generalize ilog2 q = L at hl
+  have hp : (0 : Rat) < (2 : Rat) ^ (L - 52) := zpow_pos (by norm_num) _
+  have hpe : (2 : Rat) ^ (L - 52) = (2 : Rat) ^ L / 2 ^ 52 := by
+    rw [zpow_sub₀ (by norm_num : (2 : Rat) ≠ 0)]; norm_num
+  have h := rhe_abs (q / (2 : Rat) ^ (L - 52)) (by positivity)
+  generalize (2 : Rat) ^ (L - 52) = p at hp hpe h
+  have e : (roundHalfEvenNat (q / p) : Rat) * p - q = ((roundHalfEvenNat (q / p) : Rat) - q / p) * p := by
+    field_simp
+  rw [e, abs_mul, abs_of_pos hp]
+  have h53 : ((2 ^ 53 : Nat) : Rat) = 2 ^ 52 * 2 := by norm_num
+  calc _ ≤ (1 / 2) * p := by gcongr
+    _ = (2 : Rat) ^ L / ((2 ^ 53 : Nat) : Rat) := by rw [hpe, h53]; field_simp
+    _ ≤ q / ((2 ^ 53 : Nat) : Rat) := by gcongr
+
+
+/-- C19 (value): reading the printed value back recovers it within half a unit of the last
+    printed digit — in all three branches, for every significance -/
+theorem c19_roundtrip_value (v d : Rat) (sig : Nat) (fexp : Int) :
+    let x := formatUncertainty v d sig fexp
+    |(readBack x).1 - v| ≤ unit x / 2 := by
+  intro x
+  simp only [x, formatUncertainty]
+  split_ifs <;> exact half_unit' v _
+
+
+/-- C19 (error, errors ≥ 1): value and error are printed with the same number of decimals and the
+    error is read back within half a unit -/
+theorem c19_roundtrip_error_ge1 (v d : Rat) (sig : Nat) (fexp : Int) (hf : 0 ≤ fexp) (hd : 0 ≤ d) :
+    let x := formatUncertainty v d sig fexp
+    x.err.n = x.val.n ∧ |(readBack x).2 - d| ≤ unit x / 2 := by
+  intro x
+  have h1 : ¬ fexp < 0 := by omega
+  simp only [x, formatUncertainty, if_neg h1]
+  split_ifs
+  · refine ⟨rfl, ?_⟩
+    rw [readBack_same _ rfl]
+    exact half_unit' d (sig - 1)
+  · refine ⟨rfl, ?_⟩
+    rw [readBack_same _ rfl]
+    exact half_unit' d ((sig : Int) - fexp - 1).toNat
+
+
+/-- C19 (error, errors < 1): the error is printed as an integer number of units of the last
+    printed digit of the value and read back within half a unit plus the rounding of the one
+    floating-point product the code performs -/
+theorem c19_roundtrip_error_lt1 (v d : Rat) (sig : Nat) (fexp : Int) (hf : fexp < 0) (hsig : 1 ≤ sig) (hd : 0 < d) :
+    let x := formatUncertainty v d sig fexp
+    x.err.n = 0 ∧ 0 < x.val.n ∧ |(readBack x).2 - d| ≤ unit x / 2 + d / ((2 ^ 53 : Nat) : Rat) := by
+  intro x
+  have hk : 0 < ((-fexp) + sig - 1).toNat := by omega
+  simp only [x, formatUncertainty, if_pos hf]
+  refine ⟨rfl, hk, ?_⟩
+  generalize ((-fexp) + sig - 1).toNat = k at hk
+  have hP : (0 : Rat) < ((10 ^ k : Nat) : Rat) := by positivity
+  have hD : 0 < d * ((10 ^ k : Nat) : Rat) := by positivity
+  have hR := roundDouble_nonneg _ (le_of_lt hD)
+  have hrel := c19_roundDouble_rel _ hD
+  have hdec := half_unit' (roundDouble (d * ((10 ^ k : Nat) : Rat))) 0
+  have hfac : (readBack { val := roundDec v k, err := roundDec (roundDouble (d * ((10 ^ k : Nat) : Rat))) 0 }).2
+      = (roundDec (roundDouble (d * ((10 ^ k : Nat) : Rat))) 0).toRat * (1 / ((10 ^ k : Nat) : Rat)) := by
+    unfold readBack
+    have : ((roundDec v k).n > 0 ∧ (roundDec (roundDouble (d * ((10 ^ k : Nat) : Rat))) 0).n = 0) :=
+      ⟨hk, rfl⟩
+    simp only [if_pos this]
+    rfl
+  rw [hfac]
+  apply scaled_err _ _ _ _ hP
+  generalize (roundDec (roundDouble (d * ((10 ^ k : Nat) : Rat))) 0).toRat = E at hdec
+  generalize roundDouble (d * ((10 ^ k : Nat) : Rat)) = R at hdec hrel hR
+  generalize d * ((10 ^ k : Nat) : Rat) = D at hrel hD
+  have h1 : (1 : Rat) / ((10 ^ 0 : Nat) : Rat) / 2 = 1 / 2 := by norm_num
+  rw [h1] at hdec
+  calc |E - D| = |(E - R) + (R - D)| := by ring_nf
+    _ ≤ |E - R| + |R - D| := abs_add_le _ _
+    _ ≤ 1 / 2 + D / ((2 ^ 53 : Nat) : Rat) := add_le_add hdec hrel
+
+
+/-- C19 (significant digits, 1 ≤ error < 10): the error shows `sig` digits (one more after a carry) -/
+theorem c19_sig_digits_unit (v d : Rat) (sig : Nat) (hsig : 1 ≤ sig) (h1 : 1 ≤ d) (h2 : d < 10) :
+    let x := formatUncertainty v d sig 0
+    10 ^ (sig - 1) ≤ x.err.m ∧ x.err.m ≤ 10 ^ sig := by
+  intro x
+  have h0 : ¬ ((0 : Int) < 0) := by omega
+  simp only [x, formatUncertainty, if_neg h0, beq_self_eq_true, if_true]
+  have hpow : (10 : Rat) ^ sig = 10 * 10 ^ (sig - 1) := by
+    rw [← pow_succ']; congr 1; omega
+  have hP : (0 : Rat) < (10 : Rat) ^ (sig - 1) := by positivity
+  apply roundDec_m_bounds _ _ _ _ (by linarith)
+  · push_cast; nlinarith
+  · push_cast; rw [hpow]; nlinarith
+
+
+/-- C19 (significant digits, error < 1) in terms of the rounded product dd = fl(d · 10^k):
+    if 10^(sig-1) ≤ dd < 10^sig then sig digits (one more after a carry) are shown -/
+theorem c19_sig_digits_small (dd : Rat) (sig : Nat) (hsig : 1 ≤ sig)
+    (h1 : ((10 ^ (sig - 1) : Nat) : Rat) ≤ dd) (h2 : dd < ((10 ^ sig : Nat) : Rat)) :
+    10 ^ (sig - 1) ≤ (roundDec dd 0).m ∧ (roundDec dd 0).m ≤ 10 ^ sig := by
+  have h0 : (0 : Rat) ≤ dd := le_trans (by positivity) h1
+  apply roundDec_m_bounds _ _ _ _ h0
+  · simpa using h1
+  · simpa using le_of_lt h2
+
+
 
 end PV
